@@ -12,9 +12,9 @@ for ID in "$@"; do
   git reset -q --hard; git clean -fdq src
   git apply --check $D/patch.diff 2>>$LOG || { echo "$ID patch does not apply"; continue; }
   git apply $D/demo.diff 2>>$LOG || { echo "$ID demo does not apply"; continue; }
-  cargo test --offline --lib seeded_demo >>$LOG 2>&1; R1=$?
+  timeout 600 cargo test --offline --lib seeded_demo >>$LOG 2>&1; R1=$?
   git apply $D/patch.diff
-  cargo test --offline --lib seeded_demo >>$LOG 2>&1; R2=$?
+  timeout 180 cargo test --offline --lib seeded_demo >>$LOG 2>&1; R2=$?   # 124 = the demo hangs with the patch (also a failure)
   cargo test --offline --lib -- --skip seeded_demo >>$LOG 2>&1; R3=$?
   [ $R3 -ne 0 ] && { cargo test --offline --lib -- --skip seeded_demo >>$LOG 2>&1; R3=$?; }
   echo "$ID demo_pristine_exit=$R1 demo_patched_exit=$R2 suite_patched_exit=$R3 :: $(grep -E '^test result' $LOG | tail -1)"
